@@ -821,3 +821,213 @@ class C12(Suite):
         return bad
 
 for c in (C13, C14, C09, C10, C11, C12): SUITES[c.pid] = c
+
+# =============================================================================================
+# tables, degree helpers
+def sin_deg(d): return math.sin(math.radians(d))
+def cos_deg(d): return math.cos(math.radians(d))
+
+class C19(Suite):
+    pid = "C19"; spec_module = "FixedMath.Spec.C19"
+    def ops(self, tier, rng, pool):
+        out = []
+        for i in range(361): out += ["sin_tab %d" % i, "cos_tab %d" % i]
+        for i in range(256): out += ["tan_tab %d" % i, "sqrt_tab %d" % i]
+        span = 3000 if tier == "quick" else 200000
+        ds = set(range(-span, span + 1)) | {-2**31, -2**31 + 1, 2**31 - 1, 2**31 - 2, 360, 361, 720, -360, -361, -1, -359}
+        for _ in range(span): ds.add(rng.randrange(-2**31, 2**31))
+        for d in sorted(ds): out += ["sin_aprox %d" % d, "cos_aprox %d" % d]
+        xs = set(range(0, 70000 if tier == "quick" else 600000))
+        for k in range(0, 37):
+            for d in range(-3, 4):
+                if 0 < (1 << k) + d < 2**37: xs.add((1 << k) + d)
+        n = 20000 if tier == "quick" else 400000
+        for _ in range(n): xs.add(gen.strat(rng, 37, signed=False))
+        # cell boundaries: index * 2^cl
+        for cl in range(0, 32, 2):
+            for index in (63, 64, 65, 127, 128, 200, 255, 256):
+                for d in (-1, 0, 1):
+                    v = (index << cl) + d
+                    if 0 < v < 2**37: xs.add(v)
+        for x in sorted(xs): out.append("sqrt_aprox %d" % x)
+        for v in (-1, -65536, -F, -NANP, 0): out.append("sqrt_aprox %d" % v)
+        ys = set(v for v in pool if abs(v) < 2**47) | set(range(-70000, 70000, 7))
+        for _ in range(n): ys.add(gen.strat(rng, 46)); ys.add(gen.strat(rng, 22))
+        for y in sorted(ys): out.append("atan_index %d" % y)
+        return out
+    def nontrivial(self, fn, tag, a):
+        return a[0] < 0 or a[0] > 360
+    def oracle(self, fn, tag, a, r):
+        u = 1 / 65536.0
+        x = a[0]
+        if fn in ("sin_tab", "sin_aprox"):
+            e = abs(r * u - sin_deg(x % 360 if fn == "sin_aprox" else x))
+            return None if e <= 2 * u + 1e-12 else "%s(%d) = %d: %.3f ulp from sin" % (fn, x, r, e * 65536)
+        if fn in ("cos_tab", "cos_aprox"):
+            e = abs(r * u - cos_deg(x % 360 if fn == "cos_aprox" else x))
+            return None if e <= 2 * u + 1e-12 else "%s(%d) = %d: %.3f ulp from cos" % (fn, x, r, e * 65536)
+        if fn == "tan_tab":
+            if x == 128: return None
+            t = math.tan(x * math.pi / 256)
+            e = abs(r * u - t)
+            return None if e <= 2 * u * (1 + t * t) * (1 + 1e-9) else "tan_tab(%d) = %d: error %.3f ulp*(1+tan^2)" % (x, r, e / (u * (1 + t * t)))
+        if fn == "sqrt_tab":
+            t = 65536 * math.sqrt(x / 256.0 + 31 / 2.0**18)
+            return None if abs(r - t) <= 1 + 1e-9 else "sqrt_tab(%d) = %d, expected %.3f" % (x, r, t)
+        if fn == "sqrt_aprox":
+            if x < 0: return None if isnan_raw(r) else "sqrt_aprox(raw %d) = %d is not NaN" % (x, r)
+            if x == 0: return None if r == 0 else "sqrt_aprox(0) = %d" % r
+            if x >= 2**37: return None
+            t = math.sqrt(x * 65536.0)
+            return None if abs(r - t) <= 0.02 * t * (1 + 1e-12) else "sqrt_aprox(raw %d) = %d, true %.1f: relative error %.4f > 2%%" % (x, r, t, abs(r - t) / t)
+        if fn == "atan_index":
+            if abs(x) >= 2**47: return None
+            t = math.atan(x / 65536.0) * 128 / math.pi
+            return None if abs(r * u - t) <= 1.25 + 1e-9 else "atan_index_aprox(raw %d) = %.4f, atan*128/pi = %.4f" % (x, r * u, t)
+        return None
+
+ANGLE_TAGS = ["i8", "i16", "i32", "i64", "f32", "fx"]
+def angle_line(fn, tag, d):
+    if tag == "f32": return "%s:f32 %d" % (fn, gen.f2b(float(d)))
+    if tag == "fx": return "%s:fx %d" % (fn, d * 65536)
+    return "%s:%s %d" % (fn, tag, d)
+
+class C20(Suite):
+    pid = "C20"; spec_module = "FixedMath.Spec.C20"
+    def ops(self, tier, rng, pool):
+        out = []
+        for t in INT_TYPES:
+            lo, hi = int_type_range(t)
+            vals = set(range(max(lo, -400), min(hi, 800) + 1)) | set(gen.type_values(rng, t, 200, pool))
+            for v in sorted(vals): out.append("a2r:%s %d" % (t, v))
+        for d in range(-360, 361):
+            for fn in ("sin_angle", "cos_angle", "tan_angle"):
+                for t in ANGLE_TAGS + ["u8", "u16", "u32", "u64"]:
+                    if t in INT_TYPES:
+                        lo, hi = int_type_range(t)
+                        if not lo <= d <= hi: continue
+                    out.append(angle_line(fn, t, d))
+        return out
+    def nontrivial(self, fn, tag, a):
+        return fn == "a2r" and not (0 <= a[0] <= 360) or tag in ("i8", "u8", "f32")
+    def deg(self, tag, a):
+        if tag == "f32": return f32_value(a[0])
+        if tag == "fx": return a[0] / 65536.0
+        return a[0]
+    def oracle(self, fn, tag, a, r):
+        u = 1 / 65536.0
+        if fn == "a2r":
+            d = a[0]
+            if 0 <= d <= 360:
+                if isnan_raw(r): return "angle_to_radians(%s %d) is NaN" % (tag, d)
+                return None if abs(r * u - math.radians(d)) <= 2 * u + 1e-12 else "angle_to_radians(%s %d) = %d: more than 2 ulp from %.3f" % (tag, d, r, math.radians(d) * 65536)
+            return None if isnan_raw(r) else "angle_to_radians(%s %d) = %d is not NaN" % (tag, d, r)
+        d = self.deg(tag, a)
+        if abs(d) > 360: return None
+        x = math.radians(d)
+        if fn in ("sin_angle", "cos_angle"):
+            t = math.sin(x) if fn == "sin_angle" else math.cos(x)
+            rr = abs(math.asin(max(-1.0, min(1.0, t))))
+            bound = 7 * u + rr ** 9 / 362880.0
+            e = abs(r * u - t)
+            return None if e <= bound + 1e-11 else "%s(%s %g) = %d: error %.3f ulp > %.3f" % (fn, tag, d, r, e * 65536, bound * 65536)
+        if d in (90, -90, 270, -270): return None
+        if isnan_raw(r): return "tan_angle(%s %g) is NaN" % (tag, d)
+        t = math.tan(x)
+        e = abs(r * u - t)
+        return None if e <= 5 * u * (1 + t * t) * (1 + 1e-9) else "tan_angle(%s %g) = %d (true %.4f): exceeds 5 ulp*(1+tan^2)" % (tag, d, r, t * 65536)
+    def post(self, res):
+        bad = []
+        for fn in ("sin_angle", "cos_angle", "tan_angle"):
+            for d in range(-360, 361):
+                ref = res.get(angle_line(fn, "i32", d))
+                if ref is None: continue
+                for t in ANGLE_TAGS + ["u8", "u16", "u32", "u64"]:
+                    l = angle_line(fn, t, d)
+                    if l in res and res[l] != ref: bad.append((l, "%s differs between argument types: %s -> %d, int -> %d" % (fn, l, res[l], ref)))
+        return bad
+
+for c in (C19, C20): SUITES[c.pid] = c
+
+# =============================================================================================
+# C07 (no UB in any entry point) and C08 (independence of configuration / evaluation time)
+UNARY_FX = ["neg", "abs", "isnan", "ceil", "floor", "sin", "cos", "tan", "atan", "sqrt:dflt", "asin:dflt", "acos:dflt",
+            "sqrt_aprox", "atan_index", "atan_aprox", "sin_angle:fx", "cos_angle:fx", "tan_angle:fx",
+            "to_fp:f32", "to_fp:f64", "roundtrip_d", "sqrt_abacus", "sqrt_std"]
+BINARY_FX = ["add", "sub", "mul", "div", "addeq", "subeq", "muleq", "diveq", "band", "lt", "le", "gt", "ge", "eq", "ne",
+             "atan2", "hypot:dflt", "hypot_aprox", "add_fn", "sub_fn", "mul_fn", "div_fn"]
+INT_OPS2 = ["mul_s", "rmul_s", "muleq_s", "div_s", "diveq_s", "add_i", "radd_i", "addeq_i", "sub_i", "rsub_i", "subeq_i", "rdiv_i"]
+INT_OPS1 = ["to_fixed", "to_fixed_mk", "a2r", "sin_angle", "cos_angle", "tan_angle"]
+FLOAT_OPS2 = ["add_f", "radd_f", "addeq_f", "sub_f", "rsub_f", "subeq_f", "mul_f", "rmul_f", "muleq_f", "div_f", "rdiv_f", "diveq_f"]
+DOUBLE_OPS2 = ["add_d", "radd_d", "sub_d", "rsub_d", "mul_d", "rmul_d", "div_d", "rdiv_d"]
+
+def c07_ops(rng, pool, scale):
+    vals = sorted(set(v for v in pool if -NANP <= v <= NANP) | {NANP, -NANP, F, -F, 0, 1, -1})
+    out = []
+    extreme = [NANP, -NANP, F, -F, F - 1, 2**62, -2**62, 2**47, -2**47, 2**48 - 1, 2**48, 0, 1, -1, 65536, -65536, 2**31 * 65536]
+    pick = extreme + rng.sample(vals, min(len(vals), 25 * scale)) + [gen.strat(rng) for _ in range(25 * scale)]
+    for x in pick:
+        for f in UNARY_FX: out.append("%s %d" % (f, x))
+        for t in INT_TYPES: out.append("from_fixed:%s %d" % (t, x))
+        for r in list(range(0, 64, 7)) + [63, -1, -64, -2**31, 2**31 - 1 - 2**31]:
+            out.append("shr %d %d" % (x, r)); out.append("shl %d %d" % (x, r))
+    for x in extreme + rng.sample(vals, 12 * scale):
+        for y in extreme + rng.sample(vals, 6 * scale) + [gen.strat(rng) for _ in range(3 * scale)]:
+            for f in BINARY_FX: out.append("%s %d %d" % (f, x, y))
+    for t in INT_TYPES:
+        tv = gen.type_values(rng, t, 8 * scale, pool)
+        for n in tv:
+            for f in INT_OPS1: out.append("%s:%s %d" % (f, t, n))
+            for x in rng.sample(extreme, 5) + [gen.strat(rng)]:
+                for f in INT_OPS2: out.append("%s:%s %d %d" % (f, t, x, n))
+    for b in float_patterns(rng, 60 * scale):
+        out.append("fp_to_fixed:f32 %d" % b)
+        for f in ("sin_angle", "cos_angle", "tan_angle"): out.append("%s:f32 %d" % (f, b))
+        for x in rng.sample(extreme, 3):
+            for f in FLOAT_OPS2: out.append("%s %d %d" % (f, x, b))
+    for b in double_patterns(rng, 12 * scale):
+        out.append("fp_to_fixed:f64 %d" % b)
+        for x in rng.sample(extreme, 2):
+            for f in DOUBLE_OPS2: out.append("%s %d %d" % (f, x, b))
+    ds = {-2**31, -2**31 + 1, 2**31 - 1, -1, -359, -360, -361, 0, 360, 361, 720, 65535, 65536, -65536, -90, -180, -270} | {rng.randrange(-2**31, 2**31) for _ in range(200 * scale)} | set(range(-800, 800, 3))
+    for d in sorted(ds): out += ["sin_aprox %d" % d, "cos_aprox %d" % d]
+    return out
+
+class C07(Suite):
+    pid = "C07"; spec_module = "FixedMath.Spec.C07"; needs_abacus_leg = True; ub_sample = 250000
+    def ops(self, tier, rng, pool):
+        return c07_ops(rng, pool, 1 if tier == "quick" else 8)
+    def nontrivial(self, fn, tag, a):
+        return any(abs(x) >= F for x in a) or fn in ("sin_aprox", "cos_aprox") and a[0] < 0
+    def oracle(self, fn, tag, a, r):
+        return None      # "returns normally" is checked for every leg by the driver loop (a result was printed)
+
+class C08(Suite):
+    """value legs across configurations are all compared with the one model; the constant-evaluation leg
+    (tools/check.py: constexpr_leg) compiles static_asserts derived from the model"""
+    pid = "C08"; spec_module = "FixedMath.Spec.C08"; needs_abacus_leg = True; ub_sample = 2000
+    constexpr = True
+    def ops(self, tier, rng, pool):
+        out = c07_ops(rng, pool, 1 if tier == "quick" else 4)
+        n = 300 if tier == "quick" else 5000
+        for _ in range(n):
+            x = gen.strat(rng, 47, signed=False)
+            out += ["sqrt_abacus %d" % x, "sqrt_std %d" % x]
+            r = gen.strat(rng, 31, signed=False)
+            for NN in (r * r, r * r + r, r * r + r + 1):
+                v = NN >> 16
+                if v < 2**47: out += ["sqrt_abacus %d" % v, "sqrt_std %d" % v]
+        return out
+    def nontrivial(self, fn, tag, a):
+        return fn.startswith("sqrt") or fn.startswith("hypot") or fn.startswith("asin")
+    def post(self, res):
+        bad = []
+        for l, r in res.items():
+            if l.startswith("sqrt_abacus "):
+                x = suites_arg(l)
+                l2 = "sqrt_std %d" % x
+                if 0 <= x < 2**47 and l2 in res and abs(res[l2] - r) > 1:
+                    bad.append((l, "the two sqrt algorithms differ by more than 1 ulp at raw %d: %d vs %d" % (x, r, res[l2])))
+        return bad
+
+for c in (C07, C08): SUITES[c.pid] = c
